@@ -99,13 +99,22 @@ class Gen:
         dd = {"payload": text, "tokens": Seq((tokd,))}
         return Adt("Doc", 0, tuple(dd[f] for f in dfl))
 
+    def pick(self, k, tag):
+        """generator choice; the first choices of a job are fixed by its shard"""
+        if getattr(self, "force", None):
+            v = self.force.pop(0)
+            if v >= k:
+                raise Infeasible()
+            return v
+        return tok.choose_free(self.ex, k, tag)
+
     def item(self, hidden, in_adjacent=False):
         ex, L = self.ex, self.L
         k = self.n
         self.n += 1
         # adjacent groups are made of flags, arguments and positionals (multi-value options, option structs)
-        kind = ["flag", "arg", "pos", "cmd"][tok.choose_free(ex, 3 if in_adjacent else 4, "leaf")]
-        has_help = tok.choose_free(ex, 2, "help") == 1
+        kind = ["flag", "arg", "pos", "cmd"][self.pick(3 if in_adjacent else 4, "leaf")]
+        has_help = self.pick(2, "help") == 1
         help_ = SOME(self.doc("help-%d" % k)) if has_help else NONE
         iv = lambda n: L.variant_index("Item", n)
 
@@ -140,11 +149,15 @@ class Gen:
         ex, L = self.ex, self.L
         mv = lambda n: L.variant_index("Meta", n)
         if depth == 0 or self.budget <= 0 or in_adjacent:
+            if not in_adjacent and self.pick(2, "hidden-leaf") == 1:
+                # a hidden leaf: `hide` replaces the metadata by Skip
+                self.item(True)
+                return Adt("Meta", mv("Skip"), ())
             m, kind = self.item(False, in_adjacent)
             return m
         self.budget -= 1
         kinds = ["item", "and", "or", "optional", "many", "required", "subsection", "suffix", "custom", "skip", "adjacent"]
-        k = kinds[tok.choose_free(ex, len(kinds), "node")]
+        k = kinds[self.pick(len(kinds), "node")]
         if k == "item":
             self.budget += 1
             return self.item(False)[0]
@@ -208,10 +221,8 @@ def run_tree_job(job, build):
     def harness(ex):
         ex.info_default = ex.call(parse_callee("<Info as Default>::default"), [])
         g = Gen(ex, budget)
-        # shard on the root node kind
-        first = tok.choose_free(ex, job["nshards"], "shard")
-        if first != shard:
-            raise Infeasible()
+        # shard on the first two generator choices (root node kind, then the next choice)
+        g.force = list(job["force"])
         meta = g.tree(depth)
         text = render_items(ex, meta)
         text2 = None
@@ -419,9 +430,11 @@ def make_jobs(tier, seed, build):
     jobs = []
     nshards = 11
     for depth, budget in ((1, 1), (2, 2)) if tier == "quick" else ((1, 1), (2, 2), (2, 3)):
-        for shard in range(nshards):
-            jobs.append({"id": "tree:%d:%d:%d" % (depth, budget, shard), "kind": "tree", "depth": depth, "budget": budget, "shard": shard, "nshards": nshards,
-                         "weight": depth * budget})
+        for a in range(nshards):
+            for b in range(nshards if depth > 1 else 1):
+                force = [a, b] if depth > 1 else [a]
+                jobs.append({"id": "tree:%d:%d:%s" % (depth, budget, "-".join(map(str, force))), "kind": "tree", "depth": depth, "budget": budget, "force": force,
+                             "shard": a, "nshards": nshards, "weight": depth * budget})
     for which in ("flag", "arg"):
         for ns in range(0, 3):
             for nl in range(0, 3):
